@@ -36,7 +36,7 @@ std::string harness_run()
   if(CNT.three_way > 0) sim::probe("dof_shared_by_three_or_more_ranks");
   return "{\"sync0_dofs\":" + std::to_string(CNT.sync0_dofs) + ",\"shared_dofs\":" + std::to_string(CNT.shared_dofs) + ",\"three_way_dofs\":" + std::to_string(CNT.three_way) +
     ",\"matvec_entries\":" + std::to_string(CNT.matvec_entries) + ",\"solution_entries\":" + std::to_string(CNT.sol_entries) + ",\"solver_iterations\":" + std::to_string(CNT.iters) +
-    ",\"levels\":" + std::to_string(CNT.levels) + ",\"level_spec\":" + sim::jstr(rc.w.levels) + "}";
+    ",\"levels\":" + std::to_string(CNT.levels) + ",\"transfer_entries\":" + std::to_string(CNT.transfer_entries) + ",\"level_spec\":" + sim::jstr(rc.w.levels) + "}";
 }
 
 int main(int argc, char** argv) { return harness_main(argc, argv); }
